@@ -41,7 +41,18 @@ theorem rStep_trans {s s' : RM.St} {e : Ev} (h : RM.step s e = .ok s') : RTrans 
         · rw [guard_ok] at h; obtain ⟨_, h⟩ := h
           rw [guard_ok] at h; obtain ⟨_, h⟩ := h
           cases h; exact .eff e.tid _ .gather rfl rfl rfl
-        · next rop _ _ =>
+        · next i _ =>
+          -- unregister: the pre-check under the read lock, or the write-locked section at once
+          split at h
+          · rw [guard_ok] at h; obtain ⟨_, h⟩ := h
+            rw [guard_ok] at h; obtain ⟨_, h⟩ := h
+            split at h
+            · cases h; exact .eff e.tid _ (.unregister i) rfl rfl rfl
+            · cases h; exact .frame rfl rfl rfl
+          · rw [guard_ok] at h; obtain ⟨_, h⟩ := h
+            rw [guard_ok] at h; obtain ⟨_, h⟩ := h
+            cases h; exact .eff e.tid _ (.unregister i) rfl rfl rfl
+        · next rop _ _ _ =>
           rw [guard_ok] at h; obtain ⟨_, h⟩ := h
           rw [guard_ok] at h; obtain ⟨_, h⟩ := h
           cases h; exact .eff e.tid _ rop rfl rfl rfl
@@ -51,6 +62,16 @@ theorem rStep_trans {s s' : RM.St} {e : Ev} (h : RM.step s e = .ok s') : RTrans 
           cases h; exact .frame rfl rfl rfl
         · rw [guard_ok] at h; obtain ⟨_, h⟩ := h
           cases h; exact .frame rfl rfl rfl
+      · -- unrRheld: the read unlock of the pre-check
+        rw [guard_ok] at h; obtain ⟨_, h⟩ := h
+        split at h
+        · cases h; exact .frame rfl rfl rfl
+        · cases h; exact .frame rfl rfl rfl
+      · -- unrNeedW: the write-locked section after the pre-check
+        next i _ =>
+        rw [guard_ok] at h; obtain ⟨_, h⟩ := h
+        rw [guard_ok] at h; obtain ⟨_, h⟩ := h
+        cases h; exact .eff e.tid _ (.unregister i) rfl rfl rfl
 
 theorem rItem_trans {s s' : RM.St} {it : Item} (h : RM.item s it = .ok s') : RTrans s s' := by
   cases it with
@@ -68,5 +89,157 @@ theorem rItem_trans {s s' : RM.St} {it : Item} (h : RM.item s it = .ok s') : RTr
       | (cases h; done)
       | (cases h; exact .frame rfl rfl rfl)
   | other x => simp [RM.item] at h
+
+/-! ### the pre-checked `unregister`: a read-locked lookup before the write-locked section -/
+
+/-- the result strings of a refused call are not "ok" -/
+theorem showErr_ne_ok (e : RErr) : showErr e ≠ "ok" := by
+  cases e <;> decide
+
+/-- `specApply` of an unregister, collector `i` given -/
+theorem specApply_unreg_some {colls : List Coll} {i : Nat} {c : Coll} (hc : colls[i]? = some c) (r : Reg) :
+    RM.specApply colls r (.unregister i) =
+      ((r.unregister c).1, match (r.unregister c).2 with | .ok _ => "ok" | .error e => showErr e) := by
+  simp only [RM.specApply, hc]
+  rcases r.unregister c with ⟨r', _ | _⟩ <;> rfl
+
+/-- `specApply` of an unregister, no collector `i` -/
+theorem specApply_unreg_none {colls : List Coll} {i : Nat} (hc : colls[i]? = none) (r : Reg) :
+    RM.specApply colls r (.unregister i) = (r, "no-coll") := by
+  simp only [RM.specApply, hc]
+
+/-- the pre-check `unregFails` is exactly "the specification's unregister, run on the current
+    registry, would not answer ok" -/
+theorem unregFails_iff (colls : List Coll) (r : Reg) (i : Nat) :
+    unregFails colls r i = true ↔ (RM.specApply colls r (.unregister i)).2 ≠ "ok" := by
+  rcases hc : colls[i]? with _ | c
+  · rw [specApply_unreg_none hc]
+    simp only [unregFails, hc]
+    decide
+  · rw [specApply_unreg_some hc]
+    simp only [unregFails, hc]
+    rcases (r.unregister c).2 with e | u
+    · simpa using showErr_ne_ok e
+    · simp
+
+/-- a refused unregister of the model returns the registry unchanged (the lemma behind
+    `Props/C06.unregister_fail_noop`) -/
+theorem unregister_error_noop (r : Reg) (c : Coll) (e : RErr) (h : (r.unregister c).2 = .error e) :
+    (r.unregister c).1 = r := by
+  unfold Reg.unregister at *
+  simp only [] at h ⊢
+  split
+  · rename_i hc; simp [hc] at h
+  · rfl
+
+/-- **what is committed under the read lock changes nothing**: when the pre-check says the
+    specification's unregister fails, performing it leaves the registry as it is -/
+theorem unregFails_noop (colls : List Coll) (r : Reg) (i : Nat) (h : unregFails colls r i = true) :
+    (RM.specApply colls r (.unregister i)).1 = r := by
+  rcases hc : colls[i]? with _ | c
+  · rw [specApply_unreg_none hc]
+  · rw [specApply_unreg_some hc]
+    simp only [unregFails, hc] at h
+    rcases h2 : (r.unregister c).2 with e | u
+    · exact unregister_error_noop r c e h2
+    · rw [h2] at h; cases h
+
+/-- the read lock of a pre-checked `unregister i` whose collector is NOT registered (the
+    specification's unregister would fail): the step is accepted when no writer holds the lock, it
+    commits `.unregister i` for this call with the specification's (error) result, leaves the registry
+    as it is, adds the thread to the readers, and the call goes on to the read unlock with that result
+    (`unrRheld i (some rv)`) -/
+theorem step_unreg_precheck_absent {s : RM.St} {e : Ev} {th : Th RPc} {op : String} {i : Nat}
+    (hth : s.ths[e.tid]? = some th) (hpc : th.pc = some (.start op)) (hop : parseOp op = some (.unregister i))
+    (hk : e.k = "R") (hloc : e.loc = "lk") (hw : s.lockW = none) (hf : unregFails s.colls s.reg i = true) :
+    RM.step s e = .ok { s with
+      lin := s.lin ++ [⟨e.tid, th.idx, .unregister i, (specApply s.colls s.reg (.unregister i)).2⟩],
+      lockR := e.tid :: s.lockR,
+      ths := s.ths.set e.tid { th with pc := some (.unrRheld i (some (specApply s.colls s.reg (.unregister i)).2)) } } := by
+  have hn := unregFails_noop s.colls s.reg i hf
+  unfold RM.step
+  simp only [hth, hpc, hop, hk, hloc, hw, hf, Conc.guard, rEff, hn, beq_self_eq_true, Option.isNone_none, if_true]
+
+/-- the read lock of a pre-checked `unregister i` whose collector IS registered: the step is accepted
+    when no writer holds the lock, NOTHING is committed (registry and log as they are), the thread
+    joins the readers and goes on to the read unlock without a result (`unrRheld i none`) -/
+theorem step_unreg_precheck_present {s : RM.St} {e : Ev} {th : Th RPc} {op : String} {i : Nat}
+    (hth : s.ths[e.tid]? = some th) (hpc : th.pc = some (.start op)) (hop : parseOp op = some (.unregister i))
+    (hk : e.k = "R") (hloc : e.loc = "lk") (hw : s.lockW = none) (hf : unregFails s.colls s.reg i = false) :
+    RM.step s e = .ok { s with
+      lockR := e.tid :: s.lockR,
+      ths := s.ths.set e.tid { th with pc := some (.unrRheld i none) } } := by
+  unfold RM.step
+  simp only [hth, hpc, hop, hk, hloc, hw, hf, Conc.guard, beq_self_eq_true, Option.isNone_none, if_true]
+  rfl
+
+/-- the read unlock of the pre-check: with a committed result the call is complete and will return
+    that result (no write lock is taken); without one the thread expects the write lock (`unrNeedW`) -/
+theorem step_unreg_precheck_unlock {s : RM.St} {e : Ev} {th : Th RPc} {i : Nat} {done : Option String}
+    (hth : s.ths[e.tid]? = some th) (hpc : th.pc = some (.unrRheld i done)) (hk : e.k = "r") (hloc : e.loc = "lk") :
+    RM.step s e = .ok { s with
+      lockR := s.lockR.erase e.tid,
+      ths := s.ths.set e.tid (match done with
+        | some rv => { th with pc := none, retv := some rv }
+        | none => { th with pc := some (.unrNeedW i) }) } := by
+  unfold RM.step
+  simp only [hth, hpc, hk, hloc, Conc.guard, beq_self_eq_true, Bool.and_self, if_true]
+  cases done <;> rfl
+
+/-- the write lock after a pre-check that found the collector: accepted when the lock is free; the
+    specification's unregister is performed and recorded on the registry as it is NOW (so an unregister
+    of another thread in the gap makes it fail), and its result is what the call will return -/
+theorem step_unreg_needW {s : RM.St} {e : Ev} {th : Th RPc} {i : Nat}
+    (hth : s.ths[e.tid]? = some th) (hpc : th.pc = some (.unrNeedW i)) (hk : e.k = "X") (hloc : e.loc = "lk")
+    (hw : s.lockW = none) (hr : s.lockR = []) :
+    RM.step s e = .ok { s with
+      reg := (specApply s.colls s.reg (.unregister i)).1,
+      lin := s.lin ++ [⟨e.tid, th.idx, .unregister i, (specApply s.colls s.reg (.unregister i)).2⟩],
+      lockW := some e.tid,
+      ths := s.ths.set e.tid { th with pc := some (.held true (specApply s.colls s.reg (.unregister i)).2) } } := by
+  unfold RM.step
+  simp only [hth, hpc, hk, hloc, hw, hr, Conc.guard, rEff, beq_self_eq_true, Option.isNone_none, List.isEmpty_nil,
+    Bool.and_self, if_true]
+
+/-- **the registry changes only at write-lock acquisitions**: an accepted event other than an "X" (in
+    particular the read lock of a `gather` or of a pre-checked `unregister`, although the latter may
+    COMMIT an unregister there) leaves the registry exactly as it is -/
+theorem rStep_reg_unchanged {s s' : RM.St} {e : Ev} (h : RM.step s e = .ok s') (hk : e.k ≠ "X") :
+    s'.reg = s.reg := by
+  have hx : ∀ b : Bool, ((e.k == "X") && b) = true → False := by
+    intro b hb
+    simp only [Bool.and_eq_true, beq_iff_eq] at hb
+    exact hk hb.1
+  unfold RM.step at h
+  split at h
+  · cases h
+  · split at h
+    · cases h
+    · simp only at h
+      split at h
+      · split at h
+        · cases h
+        · rw [guard_ok] at h; obtain ⟨_, h⟩ := h
+          rw [guard_ok] at h; obtain ⟨_, h⟩ := h
+          cases h; rfl
+        · next i _ =>
+          split at h
+          · rw [guard_ok] at h; obtain ⟨_, h⟩ := h
+            rw [guard_ok] at h; obtain ⟨_, h⟩ := h
+            split at h
+            · next hf => cases h; exact unregFails_noop _ _ _ hf
+            · cases h; rfl
+          · rw [guard_ok] at h; exact (hx _ h.1).elim
+        · rw [guard_ok] at h; exact (hx _ h.1).elim
+      · split at h
+        · rw [guard_ok] at h; obtain ⟨_, h⟩ := h
+          cases h; rfl
+        · rw [guard_ok] at h; obtain ⟨_, h⟩ := h
+          cases h; rfl
+      · rw [guard_ok] at h; obtain ⟨_, h⟩ := h
+        split at h
+        · cases h; rfl
+        · cases h; rfl
+      · rw [guard_ok] at h; exact (hx _ h.1).elim
 
 end Prom.C06
